@@ -85,13 +85,16 @@ func spaceSeparate(items ...string) string {
 // escapeUnsafeSyslChars escapes special characters
 // returns a string with URL encoded replacements
 func escapeUnsafeSyslChars(name string) string {
-	// url.PathEscape does not escape '. :'
+	// url.PathEscape does not escape '. : + $ & = @ ~'
 	charsToReplace := map[string]string{
 		".": `%2E`,
 		":": `%3A`,
 		"+": `%2B`,
 		"$": `%24`,
 		"&": `%26`,
+		"=": `%3D`,
+		"@": `%40`,
+		"~": `%7E`,
 	}
 	name = url.PathEscape(name)
 	for realChar, hex := range charsToReplace {
@@ -123,6 +126,8 @@ func getSyslSafeURI(endpoint string) string {
 		`%3D`: "=",
 		`%3F`: "?",
 		`%26`: "&",
+		`%40`: "@",
+		`%7E`: "~",
 	}
 	for hex, realChar := range charsToKeep {
 		endpoint = strings.ReplaceAll(endpoint, hex, realChar)
